@@ -11,8 +11,14 @@ CONSTANTS
   Threads = {"t1", "t2"}
   MaxMsgs = 5
   Bodies <- BodiesCore
+  PopulatedShortcut = FALSE
+  KeyAlias <- NoWide
   RecordHist = TRUE
 INVARIANTS
+  HasherAcceptsOnlyVerified
+  NoPanic
+  StoredOnlyVerified
+  RegistryKeyInjective
   TypeOK
   FilledOnlyIfVerified
   ServedBlockAccepted
